@@ -399,3 +399,21 @@ _add(
     "C27",
     m("options-clone-shares-export-set", T, "            export_options=set(self._export_options),\n        )", "            export_options=self._export_options,\n        )", "C27.5"),
 )
+_add(
+    "C09",
+    m("clear-keeps-event-queue", S, "        while True:\n            try:\n                self.events_queue.get_nowait()\n            except queue.Empty:\n                break\n", "", "C09.6"),
+    m("clear-keeps-limit-waiters", S, "        self._jobs_pending_limits.clear()\n        for limit_name in self.limits_used:", "        for limit_name in self.limits_used:", "C09.6"),
+)
+_add(
+    "C03",
+    m("cse-hit-uses-children", S, "            if check_valid == CacheCheckValid.FULL and not job.was_cse_hit:", "            if check_valid == CacheCheckValid.FULL:", "C03.4"),
+    m("cse-marker-not-set", S, "            job.was_cse_hit = True\n            return result, True, call_hash", "            return result, True, call_hash", "C03.4"),
+)
+_add(
+    "C12",
+    m("dedup-errback-returns-error", S, "                copy_bookkeeping()\n                raise error\n", "                copy_bookkeeping()\n                return error\n", "C12.6"),
+)
+_add(
+    "C05",
+    m("context-hash-from-parent", S, "            job.context_hash = self.type_registry.get_hash(context)\n", "            job.context_hash = job.parent_job.context_hash if job.parent_job and job.parent_job.context_hash else self.type_registry.get_hash(context)\n", "C05.4"),
+)
